@@ -4,7 +4,7 @@ _c08_floors = {"distinct": 50000, "exhaustive_cases": 1044, "exhaustive_cases_co
                      "ev:completion-while-others-pending": 5000, "ev:fragment-while-others-pending": 50000, "ev:unfragmented-with-key-of-pending-datagram": 500, "ev:non-ip": 1000,
                      "rel:same-id-pairs-share-one-address-same-role": 500, "rel:same-id-pairs-share-one-address-opposite-role": 500, "rel:same-id-disjoint-pairs": 100, "rel:same-pair-different-id": 500, "rel:same-id-reversed-pair": 500,
                      "shape:all-8-byte-fragments": 500, "shape:huge-plus-tiny": 500, "shape:9-64-fragments": 1000, "shape:more-than-64-fragments": 10, "shape:options-first-fragment-differs": 500,
-                     "shape:ttl-differs-between-fragments": 5000, "shape:total-length-near-65535": 50, "shape:key-reused-after-completion": 1000, "shape:unfragmented-with-DF": 1000,
+                     "shape:ttl-differs-between-fragments": 5000, "shape:total-length-near-65535": 50, "shape:key-reused-after-completion": 1000, "shape:unfragmented-with-DF": 1000, "shape:unfragmented-with-reserved-flag-bit": 5000,
                      "proto:UDP": 1000, "proto:TCP": 1000, "proto:ICMP": 1000, "proto:other": 1000, "link:raw": 1000, "link:eth": 1000, "link:vlan": 1000, "link:sll": 1000, "link:qinq": 1000, "link:loopback": 1000, "link:api": 1000,
                      "shape:fragment-frame-padded-to-60": 100000, "shape:last-fragment-frame-padded-to-60": 100000, "shape:fragment-frame-with-trailing-bytes": 100000,
                      "exhaustive_op_cases_completed": 28, "exhaustive_op_sequences": 323400, "histories:with-management-operations": 50000, "histories:through-proxy": 5000,
